@@ -305,8 +305,8 @@ func (c vrunCase) runCode(model string, b *pipeBudget) vrunObs {
 		}
 		catchUp(mo)
 	}
-	// drain to quiescence
-	if haveModel {
+	// drain to quiescence (model-guided while the run followed the model's schedule, else until quiet)
+	if haveModel && !obs.Unsynced {
 		for range listOf(mtail[0]) {
 			obs.Drain = append(obs.Drain, recv(pipeWait))
 		}
@@ -314,8 +314,12 @@ func (c vrunCase) runCode(model string, b *pipeBudget) vrunObs {
 			obs.Drain = append(obs.Drain, g)
 		}
 	} else {
+		quiet := 30 * time.Millisecond
+		if obs.Unsynced {
+			quiet = 300 * time.Millisecond
+		}
 		for {
-			g := recv(30 * time.Millisecond)
+			g := recv(quiet)
 			if g == "timeout" || g == "closed" {
 				break
 			}
@@ -355,6 +359,9 @@ func (c vrunCase) monitor(m *lib.Monitor, obs vrunObs) {
 		switch o {
 		case "none":
 		case "timeout", "closed":
+			if obs.Unsynced && o == "timeout" {
+				continue // the run left the model's schedule: the model's expectation of a value here does not apply
+			}
 			m.Violate("C09/Value/lossy/pipeline/not-delivered", "a value the forwarder holds for the consumer was not delivered", c, "a value", o)
 			return
 		default:
@@ -822,7 +829,7 @@ func (c crunCase) runCode(model string, b *pipeBudget) crunObs {
 	}
 	// drain every subscriber to quiescence
 	for k, s := range subs {
-		if haveModel {
+		if haveModel && !obs.Unsynced {
 			for _, want := range listOf(mtail[k]) {
 				g, ev := s.recv(pipeWait)
 				obs.Drains[k] = append(obs.Drains[k], g)
@@ -842,8 +849,12 @@ func (c crunCase) runCode(model string, b *pipeBudget) crunObs {
 				}
 			}
 		} else {
+			quiet := 30 * time.Millisecond
+			if obs.Unsynced {
+				quiet = 300 * time.Millisecond
+			}
 			for {
-				g, ev := s.recv(30 * time.Millisecond)
+				g, ev := s.recv(quiet)
 				if g == "timeout" {
 					break
 				}
@@ -927,6 +938,9 @@ func (c crunCase) monitor(m *lib.Monitor, obs crunObs) {
 			switch o {
 			case "none":
 			case "timeout":
+				if obs.Unsynced {
+					continue // the run left the model's schedule: the model's expectation of an event here does not apply
+				}
 				m.Violate("C09/Collection/multi/not-delivered", "an event a forwarder holds for its consumer was not delivered", c, "an event", fmt.Sprintf("subscriber %d (%s): timeout", k, kind))
 				return
 			case "closed":
